@@ -53,12 +53,12 @@ func extractMetadata(r binary.Reader) (md *meta.Data, err error) {
 	}
 
 	pngSig := [8]byte{}
-	bytesRead, err := r.Read(pngSig[:])
+	_, err = io.ReadFull(r, pngSig[:])
+	if err == io.ErrUnexpectedEOF {
+		return nil, fmt.Errorf("unexpected EOF reading PNG header")
+	}
 	if err != nil {
 		return nil, err
-	}
-	if bytesRead != len(pngSig) {
-		return nil, fmt.Errorf("unexpected EOF reading PNG header")
 	}
 	if pngSig != pngSignature {
 		return nil, fmt.Errorf("invalid PNG signature")
@@ -144,12 +144,12 @@ parseChunks:
 			}
 
 			chunkData := make([]byte, ch.Length-offset)
-			bytesRead, err := r.Read(chunkData)
+			_, err = io.ReadFull(r, chunkData)
+			if err == io.ErrUnexpectedEOF {
+				return nil, fmt.Errorf("unexpected EOF reading ICC profile chunk")
+			}
 			if err != nil {
 				return nil, err
-			}
-			if bytesRead != len(chunkData) {
-				return nil, fmt.Errorf("unexpected EOF reading ICC profile chunk")
 			}
 
 			// Skip chunk CRC
